@@ -1,5 +1,6 @@
 import MoneroModel.Model.TxHash
 import MoneroModel.Proofs.TxSound4
+import MoneroModel.Props.C03
 open Monero
 /-! # C05 — transaction identifier and prefix hash follow the Monero definition
 
@@ -128,5 +129,308 @@ theorem C05_no_inputs (H : Bytes → Bytes) (t : Tx) (hv : t.pre.version ≠ 1) 
   simp [txHash, hv, hb, prefixHash]
 
 example : ∃ t, tx [2, 0, 1, 0xff, 5, 0, 0, 0] = some (t, []) ∧ t.pre.version ≠ 1 ∧ t.pre.ins ≠ [] := by
+  refine ⟨⟨⟨2, 0, [.gen 5], [], []⟩, [], some ⟨0, 0, [], [], []⟩, none⟩, by rfl, by decide, by simp⟩
+
+/-! ## The decoder's output shape, with the type byte (clause "type is Null" read off the received bytes) -/
+
+/-- `parsed_shape` plus the range of the type: the RingCT type of a parsed transaction is one of the seven (≤ 6), so that
+`UInt8.ofNat bs.ty` determines it -/
+theorem parsed_shape_ty (b : Bytes) (t : Tx) (r : Bytes) (h : tx b = some (t, r)) (hv : t.pre.version ≠ 1) (hi : t.pre.ins ≠ []) :
+    ∃ bs, t.base = some bs ∧ bs.ty ≤ 6 := by
+  unfold tx at h
+  obtain ⟨p, r1, h1, h2⟩ := bind_some h
+  simp only at h2
+  split at h2
+  · rename_i hv1
+    obtain ⟨s, r2, _, h4⟩ := bind_some h2
+    obtain ⟨rfl, _⟩ := pure_some h4
+    exact absurd hv1 hv
+  · split at h2
+    · rename_i hz
+      obtain ⟨rfl, _⟩ := pure_some h2
+      simp at hz; exact absurd hz hi
+    · obtain ⟨bs, r2, h3, h4⟩ := bind_some h2
+      have hty6 := (sound_base _ _ _ _ _ h3).2
+      split at h4
+      · have fin : ∀ m pr r3, prunable bs.ty p.ins.length p.outs.length m r2 = some (pr, r3) →
+            pure' (⟨p, [], some bs, pr⟩ : Tx) r3 = some (t, r) → ∃ bs', t.base = some bs' ∧ bs'.ty ≤ 6 := by
+          intro m pr r3 _ hq
+          obtain ⟨rfl, _⟩ := pure_some hq
+          exact ⟨bs, rfl, hty6⟩
+        cases hh : p.ins.head? with
+        | none =>
+          simp only [hh] at h4
+          obtain ⟨pr, r3, h5, h6⟩ := bind_some h4
+          exact fin _ _ _ h5 h6
+        | some i0 =>
+          cases i0 with
+          | gen g =>
+            simp only [hh] at h4
+            obtain ⟨pr, r3, h5, h6⟩ := bind_some h4
+            exact fin _ _ _ h5 h6
+          | toKey a o k =>
+            simp only [hh] at h4
+            split at h4
+            · exact (fail_some h4).elim
+            · obtain ⟨pr, r3, h5, h6⟩ := bind_some h4
+              exact fin _ _ _ h5 h6
+      · obtain ⟨rfl, _⟩ := pure_some h4
+        exact ⟨bs, rfl, hty6⟩
+
+theorem ofNat_ty_zero (n : Nat) (h : n ≤ 6) : UInt8.ofNat n = 0 ↔ n = 0 := by
+  have h' : n < 7 := by omega
+  revert h'; revert n; decide
+
+theorem encBase_ne_nil (bs : Base) : encBase bs = UInt8.ofNat bs.ty :: (encBase bs).tail := by
+  simp [encBase]
+
+/-! ## Embedded (non-strict) parses: `tx b = some (t, r)` with a remainder `r` — the situation of the miner transaction
+inside a block (`Block::id` / `tx_root` hash exactly such a parse). `b' = b.take (|b| − |r|)` is the consumed part. -/
+
+/-- the prefix hash of an embedded parse is `H` of the first `p` bytes received, and `p` lies inside the consumed part -/
+theorem C05_prefix_hash_embedded (H : Bytes → Bytes) (b : Bytes) (t : Tx) (r : Bytes) (h : tx b = some (t, r)) :
+    prefixHash H t.pre = H (b.take (pOf t)) ∧ pOf t ≤ b.length - r.length := by
+  have hs := sound_tx b t r h
+  subst hs
+  constructor
+  · unfold pOf prefixHash encTx
+    simp
+  · unfold pOf encTx
+    simp only [List.length_append]; omega
+
+/-- version 1, embedded parse: the identifier is `H` of exactly the consumed bytes -/
+theorem C05_id_v1_embedded (H : Bytes → Bytes) (b : Bytes) (t : Tx) (r : Bytes) (h : tx b = some (t, r)) (hv : t.pre.version = 1) :
+    b = b.take (b.length - r.length) ++ r ∧ txHash H t = H (b.take (b.length - r.length)) := by
+  have hc := tx_consumed_prefix b t r h
+  have hs := sound_tx b t r h
+  rw [← hc]
+  exact ⟨hs, by simp [txHash, hv]⟩
+
+/-- RingCT transactions, embedded parse, with the Null test tied to the received byte: with `b'` the consumed part,
+`p < q ≤ |b'|`, the byte at position `p` is the RingCT type (one of 0..6), and
+id = H( H(b'[0..p]) ‖ H(b'[p..q]) ‖ (b'[p] = 0 ? 0^32 : H(b'[q..])) ) -/
+theorem C05_id_rct_embedded (H : Bytes → Bytes) (b : Bytes) (t : Tx) (r : Bytes) (h : tx b = some (t, r))
+    (hv : t.pre.version ≠ 1) (hi : t.pre.ins ≠ []) :
+    ∃ bs, t.base = some bs ∧ bs.ty ≤ 6 ∧
+      b = b.take (b.length - r.length) ++ r ∧ pOf t < qOf t ∧ qOf t ≤ b.length - r.length ∧
+      b[pOf t]? = some (UInt8.ofNat bs.ty) ∧
+      txHash H t = H (H ((b.take (b.length - r.length)).take (pOf t)) ++
+                      H (((b.take (b.length - r.length)).drop (pOf t)).take (qOf t - pOf t)) ++
+                      (if b[pOf t]? = some 0 then zeroHash else H ((b.take (b.length - r.length)).drop (qOf t)))) := by
+  obtain ⟨bs, hb, hz, hnz⟩ := parsed_shape b t r h hv hi
+  obtain ⟨bs', hb2, hty6⟩ := parsed_shape_ty b t r h hv hi
+  rw [hb] at hb2; cases hb2
+  refine ⟨bs, hb, hty6, ?_⟩
+  have hc := tx_consumed_prefix b t r h
+  have hs := sound_tx b t r h
+  rw [← hc]
+  have hq : qOf t - pOf t = (encBase bs).length := by simp [qOf, hb]
+  have hq2 : qOf t = (encPrefix t.pre).length + (encBase bs).length := by simp [qOf, pOf, hb]
+  have hlen : 1 ≤ (encBase bs).length := by rw [encBase_ne_nil]; simp
+  have hbyte : ∀ (x : Bytes), (encPrefix t.pre ++ (encBase bs ++ x))[pOf t]? = some (UInt8.ofNat bs.ty) := by
+    intro x
+    unfold pOf
+    rw [List.getElem?_append_right (Nat.le_refl _), Nat.sub_self, encBase_ne_nil]
+    rfl
+  by_cases hty : bs.ty = 0
+  · have hp := hz hty
+    have he : encTx t = encPrefix t.pre ++ encBase bs := by simp [encTx, hv, hb, hp]
+    have hbb : b[pOf t]? = some (UInt8.ofNat bs.ty) := by
+      rw [hs, he]; have := hbyte r; simpa [List.append_assoc] using this
+    refine ⟨hs, by omega, ?_, hbb, ?_⟩
+    · have : (encTx t).length = qOf t := by rw [he, hq2]; simp
+      have hl : b.length = (encTx t).length + r.length := by rw [hs]; simp
+      omega
+    · have h0 : b[(encPrefix t.pre).length]? = some 0 := by have := hbb; rw [hty] at this; exact this
+      rw [hq]
+      simp only [txHash, hv, if_false, hb, hty, if_true, prefixHash, pOf, h0]
+      congr 1
+      rw [he]
+      simp
+  · obtain ⟨p, hp⟩ := hnz hty
+    have he : encTx t = encPrefix t.pre ++ (encBase bs ++ encPrunable p bs.ty) := by simp [encTx, hv, hb, hp]
+    have hbb : b[pOf t]? = some (UInt8.ofNat bs.ty) := by
+      rw [hs, he]; have := hbyte (encPrunable p bs.ty ++ r); simpa [List.append_assoc] using this
+    refine ⟨hs, by omega, ?_, hbb, ?_⟩
+    · have : qOf t ≤ (encTx t).length := by rw [he, hq2]; simp only [List.length_append]; omega
+      have hl : b.length = (encTx t).length + r.length := by rw [hs]; simp
+      omega
+    · have h0 : ¬ b[(encPrefix t.pre).length]? = some 0 := by
+        show ¬ b[pOf t]? = some 0
+        rw [hbb]; intro hc0
+        exact hty ((ofNat_ty_zero bs.ty hty6).1 (Option.some.inj hc0))
+      rw [hq, hq2]
+      simp only [txHash, hv, if_false, hb, hty, hp, prefixHash, pOf, h0]
+      congr 1
+      rw [he]
+      have hd : List.drop ((encPrefix t.pre).length + (encBase bs).length) (encPrefix t.pre) = [] :=
+        List.drop_eq_nil_of_le (by omega)
+      simp [List.drop_append, hd]
+
+/-- the strict case in the same form: the Null test of `C05_id_rct` is a test of the received byte `b[p]`
+(clause "all-zero hash when the type is Null", with the type read from the bytes) -/
+theorem C05_id_rct_bytes (H : Bytes → Bytes) (b : Bytes) (t : Tx) (h : tx b = some (t, [])) (hv : t.pre.version ≠ 1)
+    (hi : t.pre.ins ≠ []) :
+    pOf t < qOf t ∧ qOf t ≤ b.length ∧
+    txHash H t = H (H (b.take (pOf t)) ++ H ((b.drop (pOf t)).take (qOf t - pOf t)) ++
+                    (if b[pOf t]? = some 0 then zeroHash else H (b.drop (qOf t)))) := by
+  obtain ⟨bs, _, _, _, hpq, hql, _, hid⟩ := C05_id_rct_embedded H b t [] h hv hi
+  simp only [List.length_nil, Nat.sub_zero, List.take_length] at hql hid
+  exact ⟨hpq, hql, hid⟩
+
+/-! ## The excluded point, tied to parsing -/
+
+/-- a strictly parsed non-v1 transaction WITHOUT inputs carries no RingCT data at all (the decoder stops after the prefix:
+`b` is exactly the prefix) and the library's identifier is `H(H(b))` — where the Monero formula would give
+`H(H(prefix) ‖ H(base) ‖ …)` for the (non-existent) base; recorded as the excluded point in DESIGN.md §8 -/
+theorem C05_no_inputs_parsed (H : Bytes → Bytes) (b : Bytes) (t : Tx) (h : tx b = some (t, [])) (hv : t.pre.version ≠ 1)
+    (hi : t.pre.ins = []) :
+    t.base = none ∧ t.prun = none ∧ b = encPrefix t.pre ∧ txHash H t = H (H b) := by
+  have hs := sound_tx b t [] h
+  simp only [List.append_nil] at hs
+  have hb : t.base = none ∧ t.prun = none := by
+    unfold tx at h
+    obtain ⟨p, r1, h1, h2⟩ := bind_some h
+    simp only at h2
+    split at h2
+    · rename_i hv1
+      obtain ⟨s, r2, _, h4⟩ := bind_some h2
+      obtain ⟨rfl, _⟩ := pure_some h4
+      exact absurd hv1 hv
+    · split at h2
+      · obtain ⟨rfl, _⟩ := pure_some h2
+        exact ⟨rfl, rfl⟩
+      · rename_i hz
+        obtain ⟨bs, r2, h3, h4⟩ := bind_some h2
+        have hp : t.pre = p := by
+          split at h4
+          · cases hh : p.ins.head? with
+            | none =>
+              simp only [hh] at h4
+              obtain ⟨pr, r3, _, h6⟩ := bind_some h4
+              obtain ⟨rfl, _⟩ := pure_some h6; rfl
+            | some i0 =>
+              cases i0 with
+              | gen g =>
+                simp only [hh] at h4
+                obtain ⟨pr, r3, _, h6⟩ := bind_some h4
+                obtain ⟨rfl, _⟩ := pure_some h6; rfl
+              | toKey a o k =>
+                simp only [hh] at h4
+                split at h4
+                · exact (fail_some h4).elim
+                · obtain ⟨pr, r3, _, h6⟩ := bind_some h4
+                  obtain ⟨rfl, _⟩ := pure_some h6; rfl
+          · obtain ⟨rfl, _⟩ := pure_some h4; rfl
+        rw [hp] at hi
+        simp [hi] at hz
+  have he : b = encPrefix t.pre := by rw [hs]; simp [encTx, hv, hb.1]
+  refine ⟨hb.1, hb.2, he, ?_⟩
+  rw [C05_no_inputs H t hv hb.1, ← he]
+
+/-! ## Against the independent by-the-book specification (Spec/Wire.lean: `specTxId`, `specPrefixHash`)
+
+`Spec.specTxId` is written over DESCRIPTIONS with the boundaries of the format itself (`specPrefix`, `specBase`, `specPrunable` are
+three separately written concatenations); it mentions neither the model nor its encoder. These theorems make `p`, `q` "known from the
+format": they are `|specPrefix d|` and `|specPrefix d| + |specBase r|`. -/
+
+/-- the model of `Transaction::hash` / `TransactionPrefix::hash` applied to the value a description denotes gives the by-the-book
+identifier and prefix hash — for EVERY description with RingCT data or version 1 (no well-shapedness needed); BulletproofPlus below
+128 proofs (beyond that the library's prunable bytes are not Monero's: known finding of C03, which also moves the identifier) -/
+theorem C05_id_eq_spec (H : Bytes → Bytes) (d : Spec.TxD) (hb : C03.BppSmall d) (hne : d.body ≠ .v2 none) :
+    some (txHash H (build d)) = Spec.specTxId H d ∧ prefixHash H (build d).pre = Spec.specPrefixHash H d := by
+  have hpre : prefixHash H (build d).pre = Spec.specPrefixHash H d := by
+    unfold prefixHash Spec.specPrefixHash; rw [C03.C03_prefix_eq_spec]
+  refine ⟨?_, hpre⟩
+  have henc := C03.C03_enc_eq_spec d hb
+  have hpe := C03.C03_prefix_eq_spec d
+  obtain ⟨unlock, ins, outs, extra, body⟩ := d
+  cases body with
+  | v1 sigs =>
+    simp only [Spec.specTxId]
+    have hv : (build ⟨unlock, ins, outs, extra, .v1 sigs⟩).pre.version = 1 := rfl
+    simp only [txHash, hv, if_true, henc]
+  | v2 r =>
+    cases r with
+    | none => exact absurd rfl hne
+    | some r =>
+      have hv : ¬ (build ⟨unlock, ins, outs, extra, .v2 (some r)⟩).pre.version = 1 := by
+        show ¬ (2 : Nat) = 1; decide
+      have hbase : (build ⟨unlock, ins, outs, extra, .v2 (some r)⟩).base = some (buildBase r) := rfl
+      have hprun : (build ⟨unlock, ins, outs, extra, .v2 (some r)⟩).prun = buildPrunable r := rfl
+      simp only [Spec.specTxId, txHash, hv, if_false, hbase, hprun, prefixHash, hpe, encBase_spec]
+      have hbpp : ∀ fee e o bpps cls po, r = .bpplus fee e o bpps cls po → bpps.length < 128 :=
+        fun fee e o bpps cls po hr => hb fee e o bpps cls po (by rw [hr])
+      cases r with
+      | null => simp [buildBase, zeroHash, Spec.zeros32]
+      | full fee ecdh outPk rs mg =>
+        have := encPrunable_spec (.full fee ecdh outPk rs mg) _ rfl hbpp
+        simp only [buildBase] at this; simp [buildBase, buildPrunable, this]
+      | simple fee po ecdh outPk rs mgs =>
+        have := encPrunable_spec (.simple fee po ecdh outPk rs mgs) _ rfl hbpp
+        simp only [buildBase] at this; simp [buildBase, buildPrunable, this]
+      | bulletproof fee ecdh outPk bps mgs po =>
+        have := encPrunable_spec (.bulletproof fee ecdh outPk bps mgs po) _ rfl hbpp
+        simp only [buildBase] at this; simp [buildBase, buildPrunable, this]
+      | bulletproof2 fee ecdh outPk bps mgs po =>
+        have := encPrunable_spec (.bulletproof2 fee ecdh outPk bps mgs po) _ rfl hbpp
+        simp only [buildBase] at this; simp [buildBase, buildPrunable, this]
+      | clsag fee ecdh outPk bps cls po =>
+        have := encPrunable_spec (.clsag fee ecdh outPk bps cls po) _ rfl hbpp
+        simp only [buildBase] at this; simp [buildBase, buildPrunable, this]
+      | bpplus fee ecdh outPk bpps cls po =>
+        have := encPrunable_spec (.bpplus fee ecdh outPk bpps cls po) _ rfl hbpp
+        simp only [buildBase] at this; simp [buildBase, buildPrunable, this]
+
+/-- length of the RingCT base of a description (0 when there is none): the distance `q − p` of the format -/
+def baseLenD (d : Spec.TxD) : Nat := match d.body with | .v2 (some r) => (Spec.specBase r).length | _ => 0
+
+/-- byte-level form: the by-the-book bytes of a well-shaped description (within the decoder's caps) parse strictly, the parsed
+value's identifier and prefix hash are the by-the-book ones, and the boundaries used by `C05_prefix_hash` / `C05_id_rct` are the
+format's: `p = |specPrefix d|`, `q = p + |specBase r|` -/
+theorem C05_id_spec_bytes (H : Bytes → Bytes) (d : Spec.TxD) (hb : C03.BppSmall d) (h : Spec.WFTxD d) (hc : CapD d)
+    (hne : d.body ≠ .v2 none) :
+    ∃ t, tx (Spec.specTx d) = some (t, []) ∧ some (txHash H t) = Spec.specTxId H d ∧
+      prefixHash H t.pre = Spec.specPrefixHash H d ∧
+      pOf t = (Spec.specPrefix d).length ∧ qOf t = (Spec.specPrefix d).length + baseLenD d := by
+  have hd := C03.C03_dec_spec_desc d hb h hc []
+  rw [List.append_nil] at hd
+  obtain ⟨h1, h2⟩ := C05_id_eq_spec H d hb hne
+  refine ⟨build d, hd, h1, h2, ?_, ?_⟩
+  · unfold pOf; rw [C03.C03_prefix_eq_spec]
+  · unfold qOf pOf baseLenD; rw [C03.C03_prefix_eq_spec]
+    obtain ⟨unlock, ins, outs, extra, body⟩ := d
+    cases body with
+    | v1 s => rfl
+    | v2 r => cases r with
+      | none => rfl
+      | some r => simp only [build]; rw [encBase_spec]
+
+/- non-vacuity: hypotheses of `C05_id_rct` / `C05_id_rct_embedded` / `C05_id_spec_bytes` are satisfiable with a NON-Null type
+(the Clsag description of Props/C03.lean: one key input of ring size 2, one tagged output, one Bulletproof) -/
+example : ∃ (d : Spec.TxD) (t : Tx), Spec.WFTxD d ∧ CapD d ∧ C03.BppSmall d ∧ d.body ≠ .v2 none ∧
+    tx (Spec.specTx d) = some (t, []) ∧ t.pre.version ≠ 1 ∧ t.pre.ins ≠ [] ∧ ∃ bs, t.base = some bs ∧ bs.ty = 5 := by
+  let k : Spec.B := List.replicate 32 7
+  let bp : Spec.BpD := ⟨k, k, k, k, k, k, [k, k], [k, k], k, k, k⟩
+  let d : Spec.TxD := ⟨0, [.key 0 [5, 1] k], [⟨0, k, some 9⟩], [1, 2, 3],
+    .v2 (some (.clsag 1000 [List.replicate 8 0] [k] [bp] [⟨[k, k], k, k⟩] [k]))⟩
+  have hk : Spec.is32 k := rfl
+  have hw : Spec.WFTxD d := by
+    simp [Spec.WFTxD, d, bp, Spec.WFIn, Spec.WFOut, Spec.WFBody, Spec.WFRct, Spec.WFBp, Spec.WFClsag, Spec.WFEcdh8,
+      Spec.all32, Spec.u64, Spec.ringSize, hk]
+  have hc : CapD d := by
+    simp [CapD, CapBody, CapRct, CapBp, CapIn, capN, d, bp, CAP, Gen.CAP, sizes, Gen.sizes]
+  have hb : C03.BppSmall d := by
+    intro fee e o bpps cls po h; simp [d] at h
+  have hd := C03.C03_dec_spec_desc d hb hw hc []
+  rw [List.append_nil] at hd
+  exact ⟨d, build d, hw, hc, hb, by simp [d], hd, by decide, by simp [build, buildPrefix, d], ⟨_, rfl, rfl⟩⟩
+
+/- non-vacuity of `C05_no_inputs_parsed`: `02 00 00 00 00` parses strictly to a version-2 transaction without inputs -/
+example : ∃ t, tx [2, 0, 0, 0, 0] = some (t, []) ∧ t.pre.version ≠ 1 ∧ t.pre.ins = [] := by
+  refine ⟨⟨⟨2, 0, [], [], []⟩, [], none, none⟩, by rfl, by decide, rfl⟩
+
+/- non-vacuity of the embedded theorems: the Null coinbase transaction followed by two more bytes -/
+example : ∃ t, tx [2, 0, 1, 0xff, 5, 0, 0, 0, 7, 7] = some (t, [7, 7]) ∧ t.pre.version ≠ 1 ∧ t.pre.ins ≠ [] := by
   refine ⟨⟨⟨2, 0, [.gen 5], [], []⟩, [], some ⟨0, 0, [], [], []⟩, none⟩, by rfl, by decide, by simp⟩
 end C05
